@@ -415,6 +415,9 @@ func BuildYAML(spec *CaseSpec, dir string) string {
 	fmt.Fprintf(&b, "steps:\n")
 	for _, s := range spec.Steps {
 		fmt.Fprintf(&b, "  - name: %s\n    command: \"true\"\n", q(s.Name))
+		if s.PadBytes > 0 {
+			fmt.Fprintf(&b, "    description: %s\n", q(strings.Repeat("p", s.PadBytes)))
+		}
 		ex("    ")
 		if len(s.Depends) > 0 {
 			fmt.Fprintf(&b, "    depends:\n")
